@@ -51,6 +51,19 @@ CONSUMED_ON_USE = {
 }
 
 
+def _sm_session_counters(prog):
+    """members of StreamAckManager that enableStreamManagement(resetSequenceNumber = true) sets to zero"""
+    en = prog.fn(NS + 'StreamAckManager::enableStreamManagement')
+    ev = cfgx.Evaluator(en, {}, custom=lambda f, nid, st: (True,) if f.nodes[nid]['k'] == 'var' and f.nodes[nid].get('pidx') == 0 else None)
+    reach = cfgx.reachable_blocks(en, lambda f, c, st: ev.ev(c, st))
+    out = set()
+    for i, n in en.all_nodes('assign'):
+        l = en.nodes[en.skip(n['l'])]
+        if l['k'] == 'mem' and en.const_value(n['r']) == ('int', 0) and en.pos(i) and en.pos(i)[0] in reach:
+            out.add(l['f'])
+    return out
+
+
 def _scope(prog):
     fns = [f for f in prog.fns.values() if C04.in_scope(f)]
     return fns, {f.id: f for f in fns}
@@ -126,6 +139,7 @@ def run(prog, run):
     r2(prog, run, fns, byid)
     r3(prog, run)
     r4(prog, run)
+    r5(prog, run)
 
 
 def r1(prog, run, fns, byid):
@@ -207,6 +221,9 @@ def r1(prog, run, fns, byid):
             continue
         if fld in PERSISTENT:
             run.ok(rid, f0.loc(i0), '%s: persistent by design — %s' % (short, PERSISTENT[fld]), nontrivial=False)
+            continue
+        if fld.startswith(NS + 'StreamAckManager::') and fld in _sm_session_counters(prog):
+            run.ok(rid, f0.loc(i0), '%s: stream-management session state, zeroed by enableStreamManagement(reset) when a fresh session starts (resumption keeps it by design)' % short)
             continue
         writers = sorted({top_function(prog, f).qname.split('::')[-1] for f, i, h in written[fld]})
         run.violation(rid, 'per-connection-state#%s#not-reset' % short, f0.loc(i0),
@@ -332,3 +349,20 @@ def r4(prog, run):
         run.ok(rid, hs.loc(), 'handleStart: C2sStreamManager::onStreamStart() on every path')
     else:
         run.violation(rid, 'handleStart#onStreamStart', hs.loc(), 'stream management negotiation state is not reset for a new stream')
+
+
+def r5(prog, run):
+    rid = run.rule('C10.R5', 'a deliberate disconnect tells the stream manager that the stream is closed (no resumption) before the socket is closed: closing the socket '
+                             'runs the session-end handlers synchronously, and they decide from canResume() whether outstanding requests are cancelled', floor=1)
+    f = prog.fn(OC + '::disconnectFromHost')
+    closed = [i for i, n in f.calls() if f.cname(n).endswith('C2sStreamManager::onStreamClosed')]
+    sock = [i for i, n in f.calls() if f.cname(n).endswith('XmppSocket::disconnectFromHost')]
+    if not sock:
+        raise AnalysisBroken('C10.R5: QXmppOutgoingClient::disconnectFromHost no longer closes the socket')
+    run.instance(rid)
+    if closed and all(any(f.node_dominates(c, s2) for c in closed) for s2 in sock):
+        run.ok(rid, f.loc(closed[0]), 'onStreamClosed() precedes socket.disconnectFromHost()')
+    else:
+        run.violation(rid, 'disconnectFromHost#order', f.loc(sock[0]),
+                      'the socket is closed before the stream manager learns that the stream was closed deliberately: the session-end handlers still see a resumable '
+                      'stream, keep the outstanding requests, and resumability is dropped right afterwards - the requests are neither completed nor resumable')
